@@ -49,6 +49,8 @@ inductive QOp where
   | hasTyped (n : Nat)
   | insertTyped (n : Nat) (v : Str)
   | removeTyped (n : Nat)
+  | tryGetChecksum                  -- `try_get_typed::<Checksum>()`, the parsed value serialised again
+  | cloneFrom (items : List (Str × Str))  -- `q.clone_from(&Qualifiers::try_from_iter(items)?)`
   deriving Repr, DecidableEq
 
 inductive QOut where
@@ -191,6 +193,11 @@ def Quals.step (U : UnicodeOps) (q : Quals) : QOp → Res PErr (QOut × Quals)
     | .ok q' => .ok (.unit, q')
     | .error (.err e) => .ok (.err e, q)
     | .error (.panic s) => panic s
+  | .cloneFrom items =>
+    match Quals.tryFromIter U items [] with
+    | .ok q' => .ok (.unit, q')
+    | .error (.err e) => .ok (.err e, q)
+    | .error (.panic s) => panic s
   | .eqKey i s =>
     match q[i]? with
     | none => .ok (.absent, q)
@@ -215,6 +222,18 @@ def Quals.step (U : UnicodeOps) (q : Quals) : QOp → Res PErr (QOut × Quals)
     match q.remove U (knownKey n) with
     | .ok (_, q') => .ok (.unit, q')
     | .error f => .error f
+  | .tryGetChecksum =>
+    match q.get U checksumKey with
+    | .error f => .error f
+    | .ok none => .ok (.absent, q)
+    | .ok (some t) =>
+      match Cksum.ofText U t with
+      | .error e => .ok (.err e, q)
+      | .ok ck =>
+        match ck.toText with
+        | .ok txt => .ok (.str txt, q)
+        | .error (.err e) => .ok (.err e, q)
+        | .error (.panic site) => panic site
 
 /-- run a list of operations, collecting the outputs. -/
 def Quals.run (U : UnicodeOps) : Quals → List QOp → Res PErr (List QOut × Quals)
